@@ -31,13 +31,14 @@ FwdProgV(e) ==
       (* the executed call set is logged (maxpos, kwpool); it must cover the complete set -- except the keyword "self", *)
       (* which only ever collides with the instance argument the harness itself supplies                              *)
       Calls == [np : 0..e.maxpos, kw : SUBSET Rng(e.kwpool)]
-      complete == /\ e.maxpos >= SumPos(<<oEff, i>>) + 1 + fl.n
-                  /\ ((NamedNames(oEff) \cup NamedNames(i) \cup {Foreign}) \ {"self"}) \subseteq Rng(e.kwpool)
+      complete == \/ e.skipexec      \* a placement whose call set is deliberately restricted (the callee parameter must keep its default)
+                  \/ /\ e.maxpos >= SumPos(<<oEff, i>>) + 1 + fl.n
+                     /\ ((NamedNames(oEff) \cup NamedNames(i) \cup {Foreign}) \ {"self"}) \subseteq Rng(e.kwpool)
       badO == Shapes(e.bad_outer)  badI == Shapes(e.bad_inner)  bad == badO \cup badI
       rep == e.reported
       simple == ~(fl.ha \/ fl.hk \/ fl.partial) /\ ~\E x \in PosIdx(oEff) : oEff[x].d
       (* with hide flags the written call passes further, unknown star arguments: the model cannot predict them *)
-      predictable == ~(fl.ha \/ fl.hk \/ fl.partial)
+      predictable == ~(fl.ha \/ fl.hk \/ fl.partial) /\ ~e.skipexec
   IN
        Clause(predictable /\ \E c \in Calls : ExecOutcome(oEff, i, fl.n, names, fl.uva, fl.uvk, c)
                                                # (IF c \in badO THEN "outer" ELSE IF c \in badI THEN "inner" ELSE "ok"), "MODEL_ExecOutcome")
